@@ -2,8 +2,10 @@
 
 (M) TLC exhausts specs/walrecover/WalRecover.tla twice: with the deviations of the code switched
     off (the property RecoveredEqualsCrashFree must hold: it is carried by "flush before delete",
-    "no second unit detection", "no key collision") and as built (TLC finds the shortest
-    schedule that breaks it -- a candidate, not a verdict).
+    "no second unit detection", "no key collision") and as the code is now (deleteBeforeFlush and
+    renorm still present; keyCollision and intM were repaired by 138d6b9/b076ffa/62d8a7a): TLC finds
+    the shortest schedule that breaks it -- a candidate, not a verdict. MC_aswritten_small.cfg
+    keeps the model of the code before the repairs as a documented negative control.
 (G) TLC enumerates every terminal behaviour (write history x persist/flush/crash/restart/
     replay/delete schedule, up to two crashes, crash points in the live phase and at each step of
     startup recovery). The Go driver replays each one on the REAL code -- wal.Writer, ArrowBuffer,
@@ -83,7 +85,10 @@ def run(ctx):
             return sum(s["sched"].count(x) for x in ("x", "xa", "xb"))
         one = [s for s in sched if len(s["writes"]) == 1 and (ncr(s) == 2 or any(x in s["sched"] for x in ("xa", "xb")))]
         two = [s for s in sched if len(s["writes"]) > 1 and any(x in s["sched"] for x in ("xa", "xb"))]
-        chosen += rnd.sample(one, min(16, len(one)))
+        # always: crash after persist, full recovery (file deleted), crash before any flush, restart
+        fixed2 = [s for s in one if s["sched"][:8] == ["w", "p", "x", "s", "r", "d", "R", "x"]]
+        chosen += fixed2
+        chosen += [s for s in rnd.sample(one, min(16, len(one))) if s not in fixed2]
         chosen += rnd.sample(two, min(8, len(two)))
     else:
         ecr = [s for s in entry if any(x in s["sched"] for x in ("x", "xa", "xb"))]
